@@ -28,6 +28,7 @@ HOSTILE = ['..', '/..', '../x', 'd/../..', 'd/../../etc/passwd', '//etc/passwd',
            'd/a#b', '/tmp/nsim-x', '....//x', 'd/...', '.../x', 'd/./f1', './d/f1', '/d/f1', 'd/f1/', '/../d/f1', '..d/f1', 'd/..f', '~/x',
            'd/' + 'a' * 300, '../' * 12 + 'etc/hostname', '/proc/self/environ',
            # names longer than any fixed buffer in the file efuns ("@n@" is expanded to n letters inside the mudlib)
+           '/*', 'd/*', '*', 'd/sub/*', 'd/.*', '/.*',        # patterns (get_dir lists what matches: the entries "." and ".." must not be among them)
            '/@3000@/', 'd/@1500@/', '@1300@', 'd/@260@/f', '/@1279@/', '/@1280@/', '/@1281@/', 'd/@1270@//']
 
 
